@@ -8,7 +8,9 @@
    count whatever the wrapped handler returned) are COMPUTED from it. *)
 From Coq Require Import List Arith.
 Import ListNotations.
+From Coq Require Import ZArith.
 Require Import QtlVerif.ShutdownDefs QtlVerif.ShutdownProofs QtlVerif.SrcShutdown.
+Require Import QtlVerif.ShutdownCounterDefs QtlVerif.ShutdownCounterProofs.
 
 (* the code still has the shape the model was written for (resetOwnThread, moveToOwnThread, the
    destructor, process, Worker::customEvent) *)
@@ -331,3 +333,28 @@ Example C04_acceptor_rejecting_nonvacuous :
   | _, _ => False
   end.
 Proof. vm_compute. repeat split. Qed.
+
+(* ---- "all backlog sizes": the width of the pending counter ---------------------------------------------------------
+   The model keeps [pending : nat] and the stop tests [0 <? pending] (AResetCheck).  The code keeps m_pendingCount in a
+   signed machine integer of [src_counter_bits] bits (translated from the member's declared type) and tests
+   `loadAcquire() > 0`.  Within the capacity of the counter the two tests are THE SAME test, for every width: *)
+Theorem C04_counter_test_is_model_test : forall bits n,
+  BinInt.Z.le (BinInt.Z.of_nat n) (counter_capacity bits) -> drain_test bits n = Nat.ltb 0 n.
+Proof. exact drain_test_faithful. Qed.
+Print Assumptions C04_counter_test_is_model_test.
+(* the counter of the source covers every backlog below 2^31 messages (each queued message is a heap-allocated event of
+   well over 100 bytes: more than that cannot be queued) *)
+Theorem C04_src_counter_covers_every_backlog : forall n,
+  BinInt.Z.le (BinInt.Z.of_nat n) 2147483647%Z -> drain_test src_counter_bits n = Nat.ltb 0 n.
+Proof. exact (fun n H => drain_test_faithful src_counter_bits n H). Qed.
+Print Assumptions C04_src_counter_covers_every_backlog.
+(* and the capacity matters: with a 16-bit counter a backlog of 40 000 messages (+1 in hand) reads negative, the drain
+   loop is not entered although 40 001 messages are pending - the stop quits the thread over the whole backlog; around a
+   multiple of 65 536 it reads zero *)
+Theorem C04_narrow_counter_refuted :
+  drain_test 16 (BinInt.Z.to_nat 40001%Z) = false /\ Nat.ltb 0 (BinInt.Z.to_nat 40001%Z) = true /\
+  drain_test 16 (BinInt.Z.to_nat 32767%Z) = true /\ drain_test 16 (BinInt.Z.to_nat 32768%Z) = false /\
+  drain_test 16 (BinInt.Z.to_nat 65536%Z) = false /\ counter_covers 16 40001%Z = false /\
+  counter_covers src_counter_bits 40001%Z = true.
+Proof. vm_compute. repeat split; reflexivity. Qed.
+Print Assumptions C04_narrow_counter_refuted.
